@@ -281,6 +281,7 @@ pub struct Cmp {
     pub n0: usize,   // pixels that differ at all
     pub n1: usize,   // pixels with a channel delta > 1
     pub n8: usize,   // pixels with a channel delta > 8
+    pub n32: usize,  // pixels with a channel delta > 32
     pub n64: usize,  // pixels with a channel delta > 64
     pub max: u8,
     pub nonblank: usize,
@@ -288,8 +289,34 @@ pub struct Cmp {
     pub dbox: (u32, u32, u32, u32), // bounding box of the pixels with delta > 1
 }
 
+/// Reference rendering for views whose content crosses a canvas edge: the direct rendering on a canvas large
+/// enough that nothing crosses an edge, cropped to the window.  None if that canvas would be too large.
+pub fn reference_crop(tree: &usvg::Tree, v: &View) -> Option<tiny_skia::Pixmap> {
+    if !tree.root().has_children() {
+        return None;
+    }
+    let bb = tree.root().abs_layer_bounding_box().transform(v.ts)?;
+    let x0 = (bb.left().floor() as i64 - 6).min(0);
+    let y0 = (bb.top().floor() as i64 - 6).min(0);
+    let x1 = (bb.right().ceil() as i64 + 6).max(v.w as i64);
+    let y1 = (bb.bottom().ceil() as i64 + 6).max(v.h as i64);
+    let (bw, bh) = (x1 - x0, y1 - y0);
+    if bw > 3000 || bh > 3000 || bw * bh > 6_000_000 {
+        return None;
+    }
+    let ts = v.ts.post_translate(-(x0 as f32), -(y0 as f32));
+    let big = render_tree(tree, bw as u32, bh as u32, ts)?;
+    let rect = tiny_skia::IntRect::from_xywh((-x0) as i32, (-y0) as i32, v.w, v.h)?;
+    big.clone_rect(rect)
+}
+
 pub fn cmp_pixmaps(a: &tiny_skia::Pixmap, b: &tiny_skia::Pixmap) -> Cmp {
-    let mut c = Cmp { n0: 0, n1: 0, n8: 0, n64: 0, max: 0, nonblank: 0, first: None, dbox: (u32::MAX, u32::MAX, 0, 0) };
+    cmp_pixmaps_ref(a, b, None)
+}
+
+/// With a reference: a pixel counts only if B differs from A *and* from the reference by more than the level.
+pub fn cmp_pixmaps_ref(a: &tiny_skia::Pixmap, b: &tiny_skia::Pixmap, r: Option<&tiny_skia::Pixmap>) -> Cmp {
+    let mut c = Cmp { n0: 0, n1: 0, n8: 0, n32: 0, n64: 0, max: 0, nonblank: 0, first: None, dbox: (u32::MAX, u32::MAX, 0, 0) };
     let w = a.width();
     for (i, (pa, pb)) in a.data().chunks_exact(4).zip(b.data().chunks_exact(4)).enumerate() {
         if pa[3] != 0 || pb[3] != 0 {
@@ -298,6 +325,14 @@ pub fn cmp_pixmaps(a: &tiny_skia::Pixmap, b: &tiny_skia::Pixmap) -> Cmp {
         let mut d = 0u8;
         for k in 0..4 {
             d = d.max(pa[k].abs_diff(pb[k]));
+        }
+        if let Some(r) = r {
+            let pr = &r.data()[i * 4..i * 4 + 4];
+            let mut dr = 0u8;
+            for k in 0..4 {
+                dr = dr.max(pr[k].abs_diff(pb[k]));
+            }
+            d = d.min(dr);
         }
         if d > 0 {
             c.n0 += 1;
@@ -313,12 +348,109 @@ pub fn cmp_pixmaps(a: &tiny_skia::Pixmap, b: &tiny_skia::Pixmap) -> Cmp {
         if d > 8 {
             c.n8 += 1;
         }
+        if d > 32 {
+            c.n32 += 1;
+        }
         if d > 64 {
             c.n64 += 1;
         }
         c.max = c.max.max(d);
     }
     c
+}
+
+/// Class predicate `nested-layer-clamp`: number of isolated groups that render_group lays out in a frame
+/// (accumulated origin of the enclosing layers) from which the canvas no longer lies inside the
+/// untranslated max_bbox, i.e. origin < -2W / -2H (or > 2W / 2H).  Walks the tree the way render_group does.
+pub fn frame_bad(tree: &usvg::Tree, w: u32, h: u32, root_ts: tiny_skia::Transform) -> usize {
+    let max = match tiny_skia::IntRect::from_xywh(-(w as i32) * 2, -(h as i32) * 2, w * 5, h * 5) {
+        Some(m) => m,
+        None => return 0,
+    };
+    fn walk(g: &usvg::Group, ts: tiny_skia::Transform, ox: i64, oy: i64, w: i64, h: i64, max: tiny_skia::IntRect, bad: &mut usize) {
+        let ts = ts.pre_concat(g.transform());
+        let mut child_ts = ts;
+        let (mut cox, mut coy) = (ox, oy);
+        if g.should_isolate() {
+            if ox < -2 * w || oy < -2 * h || ox > 2 * w || oy > 2 * h {
+                *bad += 1;
+            }
+            let bbox = match g.layer_bounding_box().transform(ts) {
+                Some(b) => b,
+                None => return,
+            };
+            let raw = if g.filters().is_empty() {
+                tiny_skia::IntRect::from_xywh(
+                    (bbox.x().floor() as i32).saturating_sub(2),
+                    (bbox.y().floor() as i32).saturating_sub(2),
+                    (bbox.width().ceil() as u32).saturating_add(4),
+                    (bbox.height().ceil() as u32).saturating_add(4),
+                )
+            } else {
+                tiny_skia::IntRect::from_xywh(
+                    bbox.x().floor() as i32,
+                    bbox.y().floor() as i32,
+                    (bbox.width().ceil() as u32).max(1),
+                    (bbox.height().ceil() as u32).max(1),
+                )
+            };
+            let ib = match raw.and_then(|r| resvg::verif_hooks::fit_to_rect(r, max)) {
+                Some(r) => r,
+                None => return,
+            };
+            child_ts = tiny_skia::Transform::from_translate(-(ib.x() as f32), -(ib.y() as f32)).pre_concat(ts);
+            cox += ib.x() as i64;
+            coy += ib.y() as i64;
+        }
+        for n in g.children() {
+            match n {
+                usvg::Node::Group(ref c) => walk(c, child_ts, cox, coy, w, h, max, bad),
+                usvg::Node::Text(ref t) => walk(t.flattened(), child_ts, cox, coy, w, h, max, bad),
+                _ => {}
+            }
+        }
+    }
+    let mut bad = 0usize;
+    walk(tree.root(), root_ts, 0, 0, w as i64, h as i64, max, &mut bad);
+    bad
+}
+
+fn ev_nums(ev: &str, key: &str) -> Option<Vec<f64>> {
+    let k = format!("\"{}\":[", key);
+    let b = ev.find(&k)? + k.len();
+    let e = ev[b..].find(']')? + b;
+    let v: Vec<f64> = ev[b..e].split(',').filter_map(|x| x.trim().parse().ok()).collect();
+    Some(v)
+}
+
+/// Class predicate `filter-region-ulp`: the i-th filtered layer of A and of B has (up to 1e-3) the same
+/// device-space size and sub-pixel position, but f32 rounding put a floor/ceil on different sides of an
+/// integer, so the two integer boxes differ by one row or column.
+pub fn ulp_flip(ea: &[String], eb: &[String]) -> bool {
+    let fl = |ev: &[String]| -> Vec<Vec<f64>> {
+        ev.iter()
+            .filter(|e| e.starts_with("{\"ev\":\"layer\"") && !e.contains("\"filters\":0,"))
+            .filter_map(|e| ev_nums(e, "bbox"))
+            .filter(|b| b.len() == 4)
+            .collect()
+    };
+    let (a, b) = (fl(ea), fl(eb));
+    if a.len() != b.len() {
+        return false;
+    }
+    let frac = |x: f64| x - x.floor();
+    for (p, q) in a.iter().zip(b.iter()) {
+        if (p[2] - q[2]).abs() < 1e-3 && (p[3] - q[3]).abs() < 1e-3 {
+            if p[2].ceil() != q[2].ceil() || p[3].ceil() != q[3].ceil() {
+                return true;
+            }
+            let (fx, fy) = ((frac(p[0]) - frac(q[0])).abs(), (frac(p[1]) - frac(q[1])).abs());
+            if fx > 0.999 || fy > 0.999 {
+                return true;
+            }
+        }
+    }
+    false
 }
 
 pub fn count_layers(ev: &[String]) -> usize {
@@ -374,10 +506,11 @@ fn op_iso(payload: &str) -> String {
         None => return "{\"skip\":\"canvas\"}".into(),
     };
     let (pb, eb) = traced_render(&tb, v.w, v.h, v.ts).unwrap();
-    let c = cmp_pixmaps(&pa, &pb);
+    let reference = if v.crossing { reference_crop(&ta, &v) } else { None };
+    let c = cmp_pixmaps_ref(&pa, &pb, reference.as_ref());
     let mut out = format!(
-        "{{\"n0\":{},\"n1\":{},\"n8\":{},\"n64\":{},\"max\":{},\"nonblank\":{},\"layersA\":{},\"layersB\":{},\"groups\":{},\"W\":{},\"H\":{},\"crossing\":{},\"ts\":[{},{},{},{},{},{}]",
-        c.n0, c.n1, c.n8, c.n64, c.max, c.nonblank, count_layers(&ea), count_layers(&eb), ngroups, v.w, v.h, v.crossing,
+        "{{\"n0\":{},\"n1\":{},\"n8\":{},\"n32\":{},\"n64\":{},\"max\":{},\"nonblank\":{},\"layersA\":{},\"layersB\":{},\"groups\":{},\"W\":{},\"H\":{},\"crossing\":{},\"ref\":{},\"frame_bad\":{},\"ulp_flip\":{},\"ts\":[{},{},{},{},{},{}]",
+        c.n0, c.n1, c.n8, c.n32, c.n64, c.max, c.nonblank, count_layers(&ea), count_layers(&eb), ngroups, v.w, v.h, v.crossing, reference.is_some(), frame_bad(&tb, v.w, v.h, v.ts), ulp_flip(&ea, &eb),
         v.ts.sx, v.ts.ky, v.ts.kx, v.ts.sy, v.ts.tx, v.ts.ty
     );
     if let Some((x, y)) = c.first {
